@@ -84,6 +84,25 @@ EXTRA = [
     ("void", "onFired: { a.b && a.c ? a.act() : a.done(1); let w = 1; }"),
     ("void", "onFiredWith: function(x: int, y: QString) { if (x > 1 && !y.isEmpty()) { a.done(x); } else { a.say(y); } let z = x; a.done(z); }"),
 ]
+# conditions that are constants (literal, folded comparison, negated literal) in every branching construct, with arms that
+# compute temporaries: a branch known at translation time still leaves every remaining jump with its label and every
+# read with its assignment
+for _c in ("true", "false", "1 > 2", "2 > 1", "!true", "!false", '"a" == "a"'):
+    EXTRA += [
+        ("value", f"rs: {_c} ? \"off\" : a.s + \"x\""), ("value", f"rs: {_c} ? a.s + \"x\" : \"off\""),
+        ("value", f"rs: {_c} ? a.s + \"x\" : a.t + \"y\""), ("value", f"ri: ({_c} ? a.i + 1 : a.j * 2) + a.i"),
+        ("value", f"ri: {{ let r = a.j; if ({_c}) {{ r = a.i + 1; }} return r; }}"),
+        ("value", f"ri: {{ let r = a.j; if ({_c}) {{ r = a.i + 1; }} else {{ r = a.i * 2; }} return r + 1; }}"),
+        ("value", f"ri: {{ if ({_c}) {{ return a.i + 1; }} return a.j; }}"),
+        ("value", f"rb: {_c} && a.b"), ("value", f"rb: {_c} || a.b"), ("value", f"rb: a.b && {_c}"), ("value", f"rb: a.b || {_c}"),
+        ("value", f"rb: ({_c} && a.b) || a.c"), ("value", f"ri: ({_c} || a.b) ? a.i : a.j"),
+        ("value", f"ri: {{ switch ({_c}) {{ case true: return a.i + 1; default: return a.j; }} }}"),
+        ("void", f"onFired: {{ if ({_c}) {{ a.done(a.i + 1); }} a.act(); }}"),
+        ("void", f"onFired: {{ if ({_c}) {{ a.done(a.i + 1); }} else {{ a.done(a.j); }} a.act(); }}"),
+        ("void", f"onFired: {{ if ({_c}) return; a.done(a.i + 1); }}"),
+        ("void", f"onFired: {{ let z = {_c} && a.b; a.sayBool(z); }}"), ("void", f"onFired: {{ let z = {_c} || a.b; a.sayBool(z); }}"),
+        ("void", f"onFired: a.say({_c} ? \"off\" : a.s + \"x\")"), ("void", f"onFired: {_c} ? a.act() : a.done(a.i + 1)"),
+    ]
 
 
 def documents(tier, for_c14=False):
